@@ -18,6 +18,29 @@ def _install_stubs(env, n, kind, P0mode, unitary=False):
     for name in ('hessenbergize', 'householder_matrix', 'ggivens', '_estimate_shifts_power_deflate', 'check_hessenberg'):
         rec['orig'][name] = getattr(Sc, name)
 
+    rec['zeroed'] = 0            # entries that were not syntactically zero and were overwritten by the constant 0 (deflation)
+    rec['zeroed_before_kernel'] = 0   # ... counted at the last kernel (reflector / rotation) call: > 0 means a sweep FOLLOWED a deflation
+
+    def _c0(x):
+        return (isinstance(x, (int, float)) and x == 0) or (hasattr(x, 'isconst') and x.isconst() and x.v == 0)
+
+    def set_hook(arr, idx, v):
+        from symex import shim
+        if not (isinstance(idx, tuple) and len(idx) == 2 and all(isinstance(t, int) for t in idx)):
+            return
+        try:
+            cs = shim._qcomps(v)
+        except BaseException:
+            return
+        if cs is None or not all(_c0(c) for c in cs):
+            return
+        cur = arr.F[idx]
+        if not all(_c0(c) for c in cur):
+            rec['zeroed'] += 1
+    if env.symbolic:
+        from symex import shim as _shim
+        _shim.QArr._set_hook = staticmethod(set_hook)
+
     def hess_stub(A):
         # H0 upper Hessenberg (symbolic), P0 = I or symbolic; the harness defines A := P0^H H0 P0 only for P0 = I
         rec['A_in'] = A
@@ -31,6 +54,7 @@ def _install_stubs(env, n, kind, P0mode, unitary=False):
         return P0, H0
 
     def hh_stub(col, e1):
+        rec['zeroed_before_kernel'] = rec['zeroed']
         k = len(rec['hh'])
         m = len(col)
         if unitary:
@@ -46,6 +70,7 @@ def _install_stubs(env, n, kind, P0mode, unitary=False):
         return W
 
     def gg_stub(x1, x2):
+        rec['zeroed_before_kernel'] = rec['zeroed']
         # the real-block variant adds the shift back after the sweep, so its similarity needs G^T G = I:
         # G = an arbitrary plane rotation, rationally parametrised (c, s) = ((1-t^2), 2t)/(1+t^2)
         k = len(rec['gg'])
@@ -74,6 +99,8 @@ def _restore(env, rec):
     Sc = env.R.schur
     for name, f in rec['orig'].items():
         setattr(Sc, name, f)
+    from symex import shim as _shim
+    _shim.QArr._set_hook = None
 
 
 def _run_variant(env, variant, A, iters):
@@ -141,6 +168,12 @@ def similarity(env, variant, n, iters, kind='real'):
     finally:
         _restore(env, rec)
     env.holds('shapes', tuple(Q.shape) == (n, n) and tuple(T.shape) == (n, n))
+    if rec['zeroed_before_kernel'] > 0:
+        # a sub-diagonal entry that was not identically zero was deflated and ANOTHER sweep followed: from then on T = Q^H A Q holds only
+        # up to the (tol-sized) deflated entry propagated by the later transformations - an exact identity would demand more than the
+        # property states.  Such paths are covered by the real-library side of the cell (tolerance-based), not by the polynomial identity
+        env.note('deflation followed by a further sweep on this path: exact polynomial identity not claimed')
+        return
     Qn, Tn, An = cm.as_nested(env, Q), cm.as_nested(env, T), cm.as_nested(env, A)
     S_ = cm_matmul_nested(cm_matmul_nested(_herm_nested(Qn), An), Qn)
 
@@ -161,7 +194,9 @@ def similarity(env, variant, n, iters, kind='real'):
                 env.holds('T[%d,%d] = (Q^H A Q)[%d,%d], or it was deflated and was negligible' % (i, j, i, j), same | (zeroed & small))
             else:
                 env.eq('T = Q^H A Q off the sub-diagonal', Tn[i][j], S_[i][j])
-    if diag.get('converged'):
+    if diag.get('converged') and iters == 1:
+        # (for more than one iteration an entry judged negligible against the diagonal of ITS iteration need not be negligible against the
+        #  diagonal after a later sweep with arbitrary stub kernels: only claimed for the iteration in which the decision was taken)
         for i in range(1, n):
             env.le('converged flag: sub-diagonal entry (%d,%d) of T is below the tolerance scale' % (i, i - 1), mod2(Tn[i][i - 1]), bound(i))
 
